@@ -2,10 +2,11 @@
  * Same script and same canonical output lines as ocaml/drv_c15.ml.
  *
  * script lines
- *   case <name> <nbpus>           new topology "pu:<nbpus>", HWLOC_CPUKINDS_RANKING unset
+ *   case <name> <nbpus | synthetic description with '_' for ' '> [model-side layout tokens, ignored here]
+ *                                 new topology "pu:<nbpus>" or the given description, HWLOC_CPUKINDS_RANKING unset
  *   env <hexstring|->             setenv/unsetenv HWLOC_CPUKINDS_RANKING
  *   reg <set> <forced> <flags> <NULL | n name value ...>     hwloc_cpukinds_register
- *   restrict <set>                hwloc_topology_restrict(set, 0)
+ *   restrict <set> [flags]        hwloc_topology_restrict(set, flags) (a nodeset with HWLOC_RESTRICT_FLAG_BYNODESET)
  *   getby <set> <flags> / getnr <flags> / getinfo <id> <flags>
  *   rank                          hwloc_topology_refresh
  *   dup                           hwloc_topology_dup, continue on the copy
@@ -117,6 +118,25 @@ static void dump(void)
   unsigned j;
   printf("nr=%d topo=", n);
   print_set(hwloc_get_root_obj(topo)->cpuset);
+  {
+    /* NUMA nodes by os index (their order in the level is not this property's business) */
+    int nn = hwloc_get_nbobjs_by_type(topo, HWLOC_OBJ_NUMANODE), a, b2, first = 1;
+    unsigned last = 0;
+    printf(" nodes=");
+    for (a = 0; a < nn; a++) {
+      hwloc_obj_t best = NULL;
+      for (b2 = 0; b2 < nn; b2++) {
+        hwloc_obj_t o = hwloc_get_obj_by_type(topo, HWLOC_OBJ_NUMANODE, (unsigned) b2);
+        if ((first || o->os_index > last) && (!best || o->os_index < best->os_index)) best = o;
+      }
+      if (!best) break;
+      printf("%s%u=", first ? "" : ",", best->os_index);
+      print_set(best->cpuset);
+      last = best->os_index;
+      first = 0;
+    }
+    if (first) putchar('-');
+  }
   putchar('\n');
   for (i = 0; i < n; i++) {
     hwloc_bitmap_t s = hwloc_bitmap_alloc();
@@ -142,14 +162,16 @@ static void dump(void)
   fflush(stdout);
 }
 
-static void new_topology(unsigned nbpus)
+static void new_topology(const char *what)
 {
-  char desc[64];
+  char desc[256], *p;
   if (topo) hwloc_topology_destroy(topo);
   unsetenv("HWLOC_CPUKINDS_RANKING");
-  snprintf(desc, sizeof desc, "pu:%u", nbpus);
+  if (what[0] >= '0' && what[0] <= '9') snprintf(desc, sizeof desc, "pu:%s", what);
+  else snprintf(desc, sizeof desc, "%s", what);
+  for (p = desc; *p; p++) if (*p == '_') *p = ' ';
   hwloc_topology_init(&topo);
-  hwloc_topology_set_synthetic(topo, desc);
+  if (hwloc_topology_set_synthetic(topo, desc) < 0) { printf("bad synthetic description %s\n", desc); exit(3); }
   if (hwloc_topology_load(topo) < 0) { printf("load failed\n"); exit(3); }
 }
 
@@ -164,7 +186,7 @@ int main(int argc, char *argv[])
     for (p = strtok(line, " \n"); p && ntok < MAXTOK; p = strtok(NULL, " \n")) tok[ntok++] = p;
     if (!ntok) continue;
     if (!strcmp(tok[0], "case")) {
-      new_topology((unsigned) atoi(tok[2]));
+      new_topology(tok[2]);
       printf("case %s\n", tok[1]);
       dump();
       continue;
@@ -226,7 +248,7 @@ int main(int argc, char *argv[])
       hwloc_bitmap_t s = parse_set(tok[1]);
       int rc;
       errno = 0;
-      rc = hwloc_topology_restrict(topo, s, 0);
+      rc = hwloc_topology_restrict(topo, s, ntok > 2 ? strtoul(tok[2], NULL, 10) : 0);
       printf("restrict rc=%d err=%s\n", rc, errclass(rc));
       hwloc_bitmap_free(s);
       dump();
